@@ -64,6 +64,7 @@ type gen struct {
 	configs int
 	lockEvs []hx.Ev
 	ntx     int
+	productDistinct int
 	protos  [2]*hx.Recorder
 	// forceOpt, when set, overrides the randomly chosen storage options (C19)
 	forceOpt func(o *nutsdb.Options)
@@ -1285,7 +1286,7 @@ func main() {
 	writeSummary := func() {
 		if c.Summary != "" {
 			b, _ := json.Marshal(map[string]interface{}{"events": rec.N, "by_op": rec.Cnt, "histories": c.Hist, "panics": g.s.Panics,
-				"nontrivial": map[string]int{"crash_images": g.images, "configs": g.configs, "concurrent_txs": g.ntx, "lock_events": len(g.lockEvs)}})
+				"nontrivial": map[string]int{"crash_images": g.images, "configs": g.configs, "concurrent_txs": g.ntx, "lock_events": len(g.lockEvs), "product_distinct_calls": g.productDistinct}})
 			os.WriteFile(c.Summary, b, 0644)
 		}
 	}
